@@ -89,7 +89,7 @@ theorem remote_checksumPrompt_ok : Gen.Remote.checksumPrompt = [
 
 /-- a missing checksum file reads as the empty string (`Entry.sum = none`) -/
 theorem remote_readChecksum_ok : Gen.Remote.readChecksum = [
-    "‹0›, ‹1› := os.ReadFile(node.checksumPath())",
+    "‹0›, _ := os.ReadFile(node.checksumPath())",
     "return string(‹0›)"] := by rfl
 
 /-- a missing or unparsable timestamp is the zero time (`cacheValid … = false`) -/
@@ -151,7 +151,7 @@ theorem remote_newNode_ok : Gen.Remote.newNode = [
     "| ‹0›, ‹1› = NewHTTPNode(entrypoint, dir, insecure, opts...)",
     "default:",
     "| ‹0›, ‹1› = NewFileNode(entrypoint, dir, opts...)",
-    "if ‹3›, ‹4› := ‹0›.(RemoteNode); ‹4› && !experiments.RemoteTaskfiles.Enabled()",
+    "if _, ‹3› := ‹0›.(RemoteNode); ‹3› && !experiments.RemoteTaskfiles.Enabled()",
     "| return nil, errors.New(\"task: Remote taskfiles are not enabled. You can read more about this",
     "\\ experiment and how to enable it at https://taskfile.dev/experiments/remote-taskfiles\")",
     "return ‹0›, ‹1›"] := by rfl
@@ -256,5 +256,43 @@ theorem remote_ctxMakers_ok : Gen.Remote.ctxMakers = [
     "setup.go Executor.readTaskfile: context.Background()",
     "taskfile/node_git.go GitNode.Read: context.Background()",
     "taskfile/node_http.go HTTPNode.Read: context.Background()"] := by rfl
+
+/-! ## The cache key: injective in the URL (`RState.ent` is indexed by `Url.id`) -/
+
+/-- `HTTPNode.CacheKey`: ‹0› = the SHA-256 (`remote_checksumFn_ok`) of **the whole location string**
+— `node.Location()` is the entrypoint exactly as it was given to `NewHTTPNode`
+(`remote_httpLocation_ok`, `remote_newHTTPNode_ok`, `remote_newNode_ok`): scheme, host, path *and
+query*, no lower-casing, no path cleaning, nothing cut off — and the key ends in it; the part in
+front (‹4›: last directory and file name of the entrypoint) is only a readable prefix.  Two URLs
+that differ anywhere therefore get different keys (up to SHA-256 collisions), which is what the
+model's per-URL cache entries assume. -/
+theorem remote_cacheKey_ok : Gen.Remote.cacheKey = [
+    "‹0› := strings.TrimRight(checksum([]byte(node.Location())), \"=\")",
+    "‹1›, ‹2› := filepath.Split(node.entrypoint)",
+    "‹3› := filepath.Base(‹1›)",
+    "‹4› := ‹2›",
+    "if len(‹3›) > 1",
+    "| ‹4› = fmt.Sprintf(\"%s-%s\", ‹3›, ‹2›)",
+    "return fmt.Sprintf(\"%s.%s\", ‹4›, ‹0›)"] := by rfl
+
+theorem remote_httpLocation_ok : Gen.Remote.httpLocation = [
+    "return node.entrypoint"] := by rfl
+
+/-- the three cache files of a node are `<dir>/<CacheKey()>.yaml|.checksum|.timestamp` -/
+theorem remote_cacheFilePath_ok : Gen.Remote.cacheFilePath = [
+    "return filepath.Join(node.dir, fmt.Sprintf(\"%s.%s\", node.source.CacheKey(), suffix))"] := by rfl
+
+theorem remote_checksumFn_ok : Gen.Remote.checksumFn = [
+    "‹0› := sha256.New()",
+    "‹0›.Write(b)",
+    "return fmt.Sprintf(\"%x\", ‹0›.Sum(nil))"] := by rfl
+
+/-- the entrypoint of an included remote Taskfile is the resolved reference as a string: its query
+is that of the reference, nothing is normalised away -/
+theorem remote_httpResolveEntrypoint_ok : Gen.Remote.httpResolveEntrypoint = [
+    "‹0›, ‹1› := url.Parse(entrypoint)",
+    "if ‹1› != nil",
+    "| return \"\", ‹1›",
+    "return node.URL.ResolveReference(‹0›).String(), nil"] := by rfl
 
 end TaskModel.Remote
